@@ -6,6 +6,7 @@ package cluster
 
 import (
 	"bytes"
+	"encoding/json"
 	"fmt"
 	"io"
 	"os"
@@ -34,6 +35,7 @@ import (
 	"github.com/uber/kraken/tracker/peerstore"
 	"github.com/uber/kraken/tracker/trackerserver"
 	"github.com/uber/kraken/utils/log"
+	"go.uber.org/zap/zapcore"
 
 	"kverif/kit"
 	sclock "kverif/shim/clock"
@@ -52,6 +54,7 @@ type Params struct {
 	PeerHandoutLimit int
 	PeerTTL          time.Duration
 	HandoutPolicy    string // "default" | "completeness"
+	TorrentLog       bool   // write kraken's torrent log (JSON lines) per peer
 }
 
 // Cluster is the set of simulated services of one run.
@@ -101,6 +104,8 @@ type Agent struct {
 	PCtx   core.PeerContext
 	Dir    string
 	idx    int
+	// TorrentLogPath is the JSON-lines torrent log of this agent (Params.TorrentLog).
+	TorrentLogPath string
 }
 
 // Events records the network events of one peer (harness monitors read it).
@@ -301,7 +306,12 @@ func (c *Cluster) StartAgent(i int) *Agent {
 		a.PCtx = pctx
 		trackers := hashring.NoopPassiveRing(hostlist.Fixture(c.Tracker.Addr))
 		ac := announceclient.New(pctx, trackers, nil)
-		sched, err := scheduler.NewAgentScheduler(c.P.Sched, stats, pctx, cads, a.Events, trackers, ac, nil)
+		sc := c.P.Sched
+		if c.P.TorrentLog {
+			a.TorrentLogPath = filepath.Join(c.Dir, fmt.Sprintf("%s-torrent-%d.log", name, gen))
+			sc.TorrentLog = log.Config{Path: a.TorrentLogPath, Level: zapcore.DebugLevel, Encoding: "json"}
+		}
+		sched, err := scheduler.NewAgentScheduler(sc, stats, pctx, cads, a.Events, trackers, ac, nil)
 		must(err, "agent scheduler")
 		a.Sched = sched
 	})
@@ -330,4 +340,44 @@ func (a *Agent) ReadCache(d core.Digest) ([]byte, error) {
 	var buf bytes.Buffer
 	_, err = buf.ReadFrom(r)
 	return buf.Bytes(), err
+}
+
+// TorrentLogRec is one record of kraken's torrent log.
+type TorrentLogRec struct {
+	At       time.Duration // fake time since the run started
+	Message  string
+	Name     string
+	InfoHash string
+}
+
+// ReadTorrentLog parses the agent's torrent log.
+func (a *Agent) ReadTorrentLog(s *simrt.Sim) []TorrentLogRec {
+	if a.TorrentLogPath == "" {
+		return nil
+	}
+	b, err := os.ReadFile(a.TorrentLogPath)
+	if err != nil {
+		return nil
+	}
+	var out []TorrentLogRec
+	for _, line := range bytes.Split(b, []byte("\n")) {
+		if len(line) == 0 {
+			continue
+		}
+		var r struct {
+			TS       string `json:"ts"`
+			Message  string `json:"message"`
+			Name     string `json:"name"`
+			InfoHash string `json:"info_hash"`
+		}
+		if json.Unmarshal(line, &r) != nil {
+			continue
+		}
+		t, err := time.Parse("2006-01-02T15:04:05.000Z0700", r.TS)
+		if err != nil {
+			continue
+		}
+		out = append(out, TorrentLogRec{At: t.Sub(s.StartTime()), Message: r.Message, Name: r.Name, InfoHash: r.InfoHash})
+	}
+	return out
 }
